@@ -9,7 +9,7 @@ import z3
 from pyvc.contracts import Contract
 from pyvc.core import fresh_name
 from pyvc.models_np import Z, sym_arr
-from pyvc.values import SV, Arr, Obj, Opaque, mk, sym, to_z3, zbool
+from pyvc.values import AbsObj, SV, Arr, Obj, Opaque, mk, sym, to_z3, zbool
 
 
 def in_box(L, E, p, axes):
@@ -455,4 +455,185 @@ class GroupCopyFromExtent(_ForwardsExtent):
         ctx.oblige("every-child-selected-with-the-same-extent-and-inverse-flag-into-the-copy", ok)
 
 
-CONTRACTS = [MaskByExtent, BoxIntersect, PointsMaskByExtent, CellMaskByExtent, ContainerCopyFromExtent, GroupCopyFromExtent]
+class DataMaskByExtent(Contract):
+    """Data entries follow their vertices or cells: vertex data are selected with the parent's
+    vertices, cell data with the parent's cell centres when it has them, otherwise a cell entry is
+    selected exactly when all the vertices of its cell pass the (possibly inverted) test -- the
+    same rule CellObject.mask_by_extent applies to the geometry."""
+    target = "geoh5py/data/data.py::Data.mask_by_extent"
+    props = ("C13",)
+    uses = (MaskByExtent,)
+    attr_overrides = {"association": lambda I, obj: obj.fields["_association"], "parent": lambda I, obj: obj.fields["_parent"]}
+    trusted = ("Data.association / Data.parent getters return the stored fields",)
+
+    def cases(self):
+        return [(k, e) for k in ("vertex", "cell-centroids", "cell-2", "cell-3", "object") for e in (2, 3)]
+
+    def setup(self, ctx):
+        from geoh5py.data import DataAssociationEnum as A_, FloatData
+
+        kind, ext_dim = ctx.case
+        n, nc = ctx.int("n", 0), ctx.int("nc", 0)
+        V = sym_arr("vertices", (n.e, 3), "real")
+        attrs = {"vertices": V}
+        w = 0
+        if kind == "cell-centroids":
+            attrs["centroids"] = sym_arr("centroids", (nc.e, 3), "real")
+        elif kind.startswith("cell-"):
+            w = int(kind[-1])
+            C = sym_arr("cells", (nc.e, w), "int")
+            c, j = z3.Ints(f"{fresh_name('c')} {fresh_name('j')}")
+            ctx.assume(z3.ForAll([c, j], z3.Implies(z3.And(c >= 0, c < nc.e, j >= 0, j < w), z3.And(C.elem(c, j) >= 0, C.elem(c, j) < n.e))))
+            attrs["cells"] = C
+        parent = AbsObj("parent", attrs)
+        assoc = {"vertex": A_.VERTEX, "object": A_.OBJECT}.get(kind, A_.CELL)
+        me = Obj(FloatData, {"_association": assoc, "_parent": parent})
+        E = sym_arr("ext", (2, ext_dim), "real")
+        inv = sym("inverse", "bool")
+        ctx.env.update(V=V, E=E, inv=inv, n=n, nc=nc, w=w, axes=ext_dim, parent=parent)
+        return [me, E], {"inverse": inv}
+
+    def post(self, ctx, result):
+        e = ctx.env
+        kind, _ = ctx.case
+        if kind == "object":
+            ctx.oblige("object-data-has-no-spatial-selection", result is None)
+            return
+        ok = isinstance(result, Arr) and result.ndim == 1
+        ctx.oblige("returns-boolean-mask", ok)
+        if not ok:
+            return
+        p = z3.Int(fresh_name("p"))
+        sel = lambda L, q: z3.Xor(e["inv"].e, in_box(L, e["E"], q, e["axes"]))
+        if kind == "vertex":
+            ctx.oblige("one-entry-per-vertex", Z(result.shape[0]) == e["n"].e)
+            ctx.oblige("vertex-entry-selected-iff-its-vertex-passes-the-test", z3.Implies(z3.And(p >= 0, p < e["n"].e), result.elem(p) == sel(e["V"], p)))
+        elif kind == "cell-centroids":
+            cen = e["parent"].attrs["centroids"]
+            ctx.oblige("one-entry-per-cell", Z(result.shape[0]) == e["nc"].e)
+            ctx.oblige("cell-entry-selected-iff-its-centre-passes-the-test", z3.Implies(z3.And(p >= 0, p < e["nc"].e), result.elem(p) == sel(cen, p)))
+        else:
+            C = e["parent"].attrs["cells"]
+            ctx.oblige("one-entry-per-cell", Z(result.shape[0]) == e["nc"].e)
+            ctx.oblige("cell-entry-selected-iff-all-its-vertices-pass-the-test", z3.Implies(z3.And(p >= 0, p < e["nc"].e), result.elem(p) == z3.And(*[sel(e["V"], C.elem(p, j)) for j in range(e["w"])])),
+                       note="the inverse option must invert the vertex test, as for the geometry itself")
+
+
+class GridMaskByExtent(Contract):
+    """Grid cells are selected exactly when their centres pass the test; nothing is returned only
+    when the box misses the grid's bounding box (or the grid has no geometry)."""
+    target = "geoh5py/objects/grid_object.py::GridObject.mask_by_extent"
+    props = ("C13",)
+    uses = (MaskByExtent, BoxIntersect)
+    attr_overrides = {"centroids": lambda I, obj: obj.fields["_centroids"], "extent": lambda I, obj: obj.fields["_extent"]}
+    trusted = ("GridObject.centroids (C17) and ObjectBase.extent (bounding box of the centroids) getters are summarised by their stated meaning",)
+
+    def cases(self):
+        return [2, 3]
+
+    def setup(self, ctx):
+        from geoh5py.objects import BlockModel
+
+        n = ctx.int("n", 1)
+        cen = sym_arr("centroids", (n.e, 3), "real")
+        B = sym_arr("bbox", (2, 3), "real")
+        q = z3.Int(fresh_name("q"))
+        rng = z3.And(q >= 0, q < n.e)
+        # extent = [min, max] of the centres per axis: a bound that is attained
+        for a in range(3):
+            ctx.assume(z3.ForAll([q], z3.Implies(rng, z3.And(B.elem(0, a) <= cen.elem(q, a), cen.elem(q, a) <= B.elem(1, a)))))
+            ctx.assume(z3.Exists([q], z3.And(rng, cen.elem(q, a) == B.elem(0, a))))
+            ctx.assume(z3.Exists([q], z3.And(rng, cen.elem(q, a) == B.elem(1, a))))
+        me = Obj(BlockModel, {"_centroids": cen, "_extent": B})
+        E = sym_arr("ext", (2, ctx.case), "real")
+        ctx.assume(z3.And(*[E.elem(0, a) <= E.elem(1, a) for a in range(ctx.case)]))
+        inv = sym("inverse", "bool")
+        ctx.env.update(cen=cen, E=E, inv=inv, n=n, axes=ctx.case)
+        return [me, E], {"inverse": inv}
+
+    def post(self, ctx, result):
+        e = ctx.env
+        p, q = z3.Int(fresh_name("p")), z3.Int(fresh_name("q"))
+        rng = lambda x: z3.And(x >= 0, x < e["n"].e)
+        miss = z3.Or(*[z3.Or(z3.ForAll([q], z3.Implies(rng(q), e["cen"].elem(q, a) > e["E"].elem(1, a))), z3.ForAll([q], z3.Implies(rng(q), e["cen"].elem(q, a) < e["E"].elem(0, a)))) for a in range(e["axes"])])
+        if result is None:
+            ctx.oblige("nothing-returned-only-when-bounding-box-is-missed", miss)
+            return
+        ctx.oblige("mask-returned-only-when-bounding-box-is-met", z3.Not(miss))
+        ok = isinstance(result, Arr) and result.ndim == 1
+        ctx.oblige("returns-boolean-mask", ok)
+        if ok:
+            ctx.oblige("one-entry-per-cell", Z(result.shape[0]) == e["n"].e)
+            ctx.oblige("cell-selected-iff-its-centre-is-inside-xor-inverse", z3.Implies(rng(p), result.elem(p) == z3.Xor(e["inv"].e, in_box(e["cen"], e["E"], p, e["axes"]))))
+
+
+class Grid2DCopyFromExtent(Contract):
+    """Bounded stand-in (the sub-grid arithmetic uses trigonometric rotation matrices and
+    np.kron/argmax/sum, outside the engine): the extent copy of a 2-D grid is the smallest
+    sub-grid covering the selected cells -- spanning first to last selected column and row --
+    whose centres coincide with the original cells' and whose values are blanked outside the box."""
+    target = "geoh5py/objects/grid2d.py::Grid2D.copy_from_extent"
+    variant = "native-oracle"
+    symbolic = False
+    has_native = True
+    props = ("C13",)
+    bounded_scope = ("grids 3x2, 3x3, 4x3 (cell sizes 1 x 2), rotations {0, 30, 45, 90, atan(1/2)} deg x dips {0, 45, 90} deg; every box spanned by a pair of cell centres "
+                     "(2-D and 3-D extents, widened by 1e-6) plus the all-covering and a disjoint box: exhaustive in the quick tier for 3x2 and 4x3, all three shapes in the thorough tier")
+
+    ROT = (0.0, 30.0, 45.0, 90.0, 26.565051177078)
+    DIP = (0.0, 45.0, 90.0)
+
+    def native_cases(self, tier, rng):
+        shapes = [(3, 2), (4, 3)] if tier == "quick" else [(3, 2), (3, 3), (4, 3), (5, 2)]
+        for nu, nv in shapes:
+            for rot in self.ROT:
+                for dip in self.DIP:
+                    yield {"nu": nu, "nv": nv, "rotation": rot, "dip": dip}
+
+    @staticmethod
+    def one(g, cen, vals, nu, nv, box):
+        box = np.array(box, dtype=float)
+        ax = box.shape[1]
+        sel = np.all((cen[:, :ax] >= box[0]) & (cen[:, :ax] <= box[1]), axis=1)
+        out = g.copy_from_extent(box)
+        if not sel.any():
+            return None if out is None else "a grid is returned though no cell centre lies inside the box"
+        if out is None:
+            return "nothing is returned though cell centres lie inside the box"
+        S = sel.reshape(nv, nu)
+        ii, jj = np.where(S.any(axis=0))[0], np.where(S.any(axis=1))[0]
+        i0, i1, j0, j1 = ii.min(), ii.max(), jj.min(), jj.max()
+        if (out.u_count, out.v_count) != (i1 - i0 + 1, j1 - j0 + 1):
+            return f"sub-grid is {out.u_count}x{out.v_count} but the smallest covering sub-grid is {i1 - i0 + 1}x{j1 - j0 + 1} (selected columns {ii.tolist()}, rows {jj.tolist()})"
+        idx = np.array([i + j * nu for j in range(j0, j1 + 1) for i in range(i0, i1 + 1)])
+        if not np.allclose(out.centroids, cen[idx], atol=1e-9):
+            return "the sub-grid's cell centres are not the original cells' centres"
+        d = out.get_data("d")[0].values
+        exp = np.where(sel[idx], vals[idx], np.nan)
+        if d is None or len(d) != len(exp) or not np.allclose(d, exp, equal_nan=True):
+            return f"values {None if d is None else np.asarray(d).tolist()} expected {exp.tolist()} (original values inside the box, blank outside)"
+        return None
+
+    def native_check(self, case):
+        from geoh5py.objects import Grid2D
+        from geoh5py.workspace import Workspace
+
+        nu, nv = case["nu"], case["nv"]
+        with Workspace() as ws:
+            g = Grid2D.create(ws, origin=[1.0, 2.0, 3.0], u_cell_size=1.0, v_cell_size=2.0, u_count=nu, v_count=nv, rotation=case["rotation"], dip=case["dip"])
+            vals = np.arange(nu * nv, dtype=float) + 1
+            g.add_data({"d": {"values": vals.copy()}})
+            cen = np.array(g.centroids)
+            boxes = [[(cen.min(axis=0) - 1).tolist(), (cen.max(axis=0) + 1).tolist()], [(cen.max(axis=0)[:2] + 5).tolist(), (cen.max(axis=0)[:2] + 6).tolist()]]
+            for a, b in itertools.combinations_with_replacement(range(nu * nv), 2):
+                lo, hi = np.minimum(cen[a], cen[b]) - 1e-6, np.maximum(cen[a], cen[b]) + 1e-6
+                boxes.append([lo[:2].tolist(), hi[:2].tolist()])
+                boxes.append([lo.tolist(), hi.tolist()])
+            for box in boxes:
+                bad = self.one(g, cen, vals, nu, nv, box)
+                if bad:
+                    return f"{bad}; grid {nu}x{nv} rotation {case['rotation']} dip {case['dip']} box {box}"
+        return None
+
+
+CONTRACTS = [MaskByExtent, BoxIntersect, PointsMaskByExtent, CellMaskByExtent, DataMaskByExtent, GridMaskByExtent, Grid2DCopyFromExtent, ContainerCopyFromExtent, GroupCopyFromExtent]
